@@ -54,6 +54,7 @@ type conn struct {
 	isDatagram     bool                   // UDP protocol
 	opened         bool                   // connection opened event fired
 	isEOF          bool                   // whether the connection has reached EOF
+	inWriteTo      bool                   // whether WriteTo is draining the inbound buffer
 }
 
 func newStreamConn(proto string, fd int, el *eventloop, sa unix.Sockaddr, localAddr, remoteAddr net.Addr) (c *conn) {
@@ -111,7 +112,14 @@ func (c *conn) release() {
 	c.remoteAddr = nil
 	if !c.isDatagram {
 		c.remote = nil
-		c.inboundBuffer.Done()
+		if c.inWriteTo {
+			// WriteTo is draining the inbound ring-buffer right now and the writer it was
+			// given has closed the connection (a failed Write to this connection does that):
+			// the ring-buffer is still in use, it must not go back to the pool.
+			c.inboundBuffer = elastic.RingBuffer{}
+		} else {
+			c.inboundBuffer.Done()
+		}
 		c.outboundBuffer.Release()
 	}
 }
@@ -446,7 +454,10 @@ func (c *conn) ReadFrom(r io.Reader) (int64, error) {
 
 func (c *conn) WriteTo(w io.Writer) (n int64, err error) {
 	if !c.inboundBuffer.IsEmpty() {
-		if n, err = c.inboundBuffer.WriteTo(w); err != nil {
+		c.inWriteTo = true
+		n, err = c.inboundBuffer.WriteTo(w)
+		c.inWriteTo = false
+		if err != nil {
 			return
 		}
 	}
